@@ -410,6 +410,7 @@ Definition op_writes (o : op) : list N :=
   | OClone _ d | OCloneFrom d _ => [d]
   | OEq a _ => [a]
   | OSetAlg _ a _ | OSetPred _ a _ => [a]
+  | OParIter s _ _ _ | OParExtend s _ => [s]
   end.
 
 Lemma T_C11_independent c w t o w' i :
@@ -432,6 +433,8 @@ Proof.
   - destruct Hs as (m & l & _ & _ & _ & _ & ->). apply lookup_delete_ne. congruence.
   - destruct Hs as (m & l & _ & _ & _ & _ & ->). apply lookup_insert_ne. congruence.
   - destruct Hs as (m & l & v1 & rest & m' & _ & _ & _ & _ & _ & _ & _ & ->). apply lookup_insert_ne. congruence.
+  - destruct Hs as (m & _ & [[_ ->]|[_ [m' ->]]]); apply lookup_insert_ne; congruence.
+  - destruct Hs as [[_ ->]|[_ [m' ->]]]; apply lookup_insert_ne; congruence.
   - destruct Hs as (m & _ & [[_ ->]|[_ ->]]); [apply lookup_insert_ne; congruence|reflexivity].
   - destruct Hs as (m & md & _ & _ & [[_ ->]|[_ [m' ->]]]); apply lookup_insert_ne; congruence.
   - destruct Hs as (ma & mb & _ & _ & _ & ->). reflexivity.
@@ -443,6 +446,8 @@ Proof.
   - destruct Hs as (m & _ & _ & ->). reflexivity.
   - destruct Hs as (ma & mb & _ & _ & -> & _). reflexivity.
   - destruct Hs as (ma & mb & _ & _ & -> & _). reflexivity.
+  - destruct Hs as (m & l & _ & _ & _ & _ & ->). apply lookup_insert_ne. congruence.
+  - destruct Hs as (m & _ & [[_ ->]|[_ [m' ->]]]); apply lookup_insert_ne; congruence.
 Qed.
 
 (* ---------------------------------------------------------------- C14 *)
@@ -771,7 +776,7 @@ Lemma T_C13_algebra c w t kind a b o w' :
     NoDup (map ek l) /\
     (forall e, e ∈ l -> ma !! ek e = Some e \/ mb !! ek e = Some e) /\
     (forall k, k ∈ map ek l <->
-       alg_math (if kind <? 4 then kind else kind - 4) (is_Some (ma !! k)) (is_Some (mb !! k))).
+       alg_math (alg_kind kind) (is_Some (ma !! k)) (is_Some (mb !! k))).
 Proof.
   intros HR HW Eop Hrun. assert (Hc : core_op (t_op t)) by (rewrite Eop; exact I).
   destruct (T_step_ok c w t o w' HR HW Hc Hrun) as [_ Hs]. rewrite Eop in Hs. cbn [spec_rel] in Hs.
@@ -784,7 +789,7 @@ Qed.
 Lemma T_C13_predicates c w t kind a b o w' :
   0 < cR c -> WInv c w -> t_op t = OSetPred kind a b -> step c w t = Ok o w' ->
   exists (ma mb : gmap N elem) bb, wabs w !! a = Some ma /\ wabs w !! b = Some mb /\ wabs w' = wabs w /\
-    o = OutB bb /\ (bb = true <-> pred_math kind ma mb).
+    o = OutB bb /\ (bb = true <-> pred_math (pred_kind kind) ma mb).
 Proof.
   intros HR HW Eop Hrun. assert (Hc : core_op (t_op t)) by (rewrite Eop; exact I).
   destruct (T_step_ok c w t o w' HR HW Hc Hrun) as [_ Hs]. rewrite Eop in Hs. cbn [spec_rel] in Hs.
@@ -798,6 +803,77 @@ Lemma T_C13_iter c r :
   (forall e, e ∈ iter_elems r <-> rt_abs r !! ek e = Some e) /\
   N.of_nat (length (iter_elems r)) = rt_len r.
 Proof. apply iter_elems_spec. Qed.
+
+(* ---------------------------------------------------------------- C15 *)
+
+(* rayon traversals (par_iter, par_keys, par_values, par_iter_mut, par_values_mut): the main
+   table's buckets and the old table's cached iterator are two producers, each cut into pieces by
+   the work-splitting schedule.  Whatever the schedule: *)
+
+(* ... the pieces partition what the sequential iterator yields: no element is lost, none is
+   handed to two workers *)
+Lemma T_C15_pieces_partition (A : Type) (splits : list nat) (l : list A) : concat (chop splits l) = l.
+Proof. apply concat_chop. Qed.
+
+(* ... the call does exactly what the same call does under any other schedule *)
+Lemma T_C15_schedule_independent c w t1 t2 s variant delta sp1 sp2 :
+  t_op t1 = OParIter s variant delta sp1 -> t_op t2 = OParIter s variant delta sp2 ->
+  t_on t1 = t_on t2 -> t_tomb t1 = t_tomb t2 -> t_perm t1 = t_perm t2 -> t_qperm t1 = t_qperm t2 ->
+  step c w t1 = step c w t2.
+Proof.
+  intros E1 E2 H1 H2 H3 H4. unfold step. rewrite E1, E2, H1, H2, H3, H4. f_equal.
+  unfold with_slot, with_slot_gen. destruct (w_maps w !! s) as [ms|]; [|reflexivity].
+  destruct (_ && _); [reflexivity|]. rewrite !map_par_iter_eq. reflexivity.
+Qed.
+
+(* ... it visits exactly the elements of the map, each once (shown sorted), and par_iter_mut /
+   par_values_mut update each value once *)
+Lemma T_C15_par_iter c w t s variant delta splits o w' :
+  0 < cR c -> WInv c w -> t_op t = OParIter s variant delta splits -> step c w t = Ok o w' ->
+  WInv c w' /\ exists (m : gmap N elem) l, wabs w !! s = Some m /\ NoDup (map ek l) /\ list_to_emap l = m /\
+    o = OutL (foldr insert_sorted [] (map elem3 l)) /\
+    wabs w' = <[s := if delta =? 0 then m else bumpv delta <$> m]> (wabs w).
+Proof.
+  intros HR HW Eop Hrun. assert (Hc : core_op (t_op t)) by (rewrite Eop; exact I).
+  destruct (T_step_ok c w t o w' HR HW Hc Hrun) as [HW' Hs]. rewrite Eop in Hs. auto.
+Qed.
+
+(* ... and is the sequential traversal up to the order of the visits *)
+Lemma T_C15_par_is_seq c w tp ts s variant delta splits :
+  t_op tp = OParIter s variant delta splits -> t_op ts = OIter s variant delta ->
+  t_on tp = t_on ts -> t_tomb tp = t_tomb ts -> t_perm tp = t_perm ts -> t_qperm tp = t_qperm ts ->
+  step c w tp = match step c w ts with
+                | Ok (OutL l) w' => Ok (OutL (foldr insert_sorted [] l)) w'
+                | r => r
+                end.
+Proof.
+  intros E1 E2 H1 H2 H3 H4. unfold step. rewrite E1, E2, H1, H2, H3, H4.
+  unfold with_slot, with_slot_gen. destruct (w_maps w !! s) as [ms|]; [|reflexivity].
+  destruct (_ && _); [reflexivity|]. rewrite map_par_iter_eq.
+  destruct (map_iter delta _) as [l s1|p s1|f]; reflexivity.
+Qed.
+
+(* par_extend / from_par_iter: however the items were collected into pieces, the same collection
+   as sequential extend by all the items in order *)
+Lemma T_C15_par_extend c w t s chunks o w' :
+  0 < cR c -> WInv c w -> t_op t = OParExtend s chunks -> N.of_nat (length (concat chunks)) < usize_max ->
+  step c w t = Ok o w' ->
+  WInv c w' /\ exists m : gmap N elem, wabs w !! s = Some m /\ wabs w' = <[s := ext m (concat chunks)]> (wabs w).
+Proof.
+  intros HR HW Eop Hlen Hrun. assert (Hc : core_op (t_op t)) by (rewrite Eop; exact Hlen).
+  destruct (T_step_ok c w t o w' HR HW Hc Hrun) as [HW' Hs]. rewrite Eop in Hs. cbn [spec_rel] in Hs.
+  split; [exact HW'|]. destruct Hs as (m & Hm & [[_ ->]|[-> _]]); [eauto|].
+  exfalso. unfold step in Hrun. rewrite Eop in Hrun. destruct (with_slot_h _ _ _ _ _); discriminate.
+Qed.
+Lemma T_C15_extend_is_reference c w t s items hint o w' :
+  0 < cR c -> WInv c w -> t_op t = OExtend s items hint -> hint <= usize_max -> step c w t = Ok o w' ->
+  WInv c w' /\ exists m : gmap N elem, wabs w !! s = Some m /\ wabs w' = <[s := ext m items]> (wabs w).
+Proof.
+  intros HR HW Eop Hh Hrun. assert (Hc : core_op (t_op t)) by (rewrite Eop; exact Hh).
+  destruct (T_step_ok c w t o w' HR HW Hc Hrun) as [HW' Hs]. rewrite Eop in Hs. cbn [spec_rel] in Hs.
+  split; [exact HW'|]. destruct Hs as (m & Hm & [[_ ->]|[-> _]]); [eauto|].
+  exfalso. unfold step in Hrun. rewrite Eop in Hrun. destruct (with_slot_h _ _ _ _ _); discriminate.
+Qed.
 
 (* ---------------------------------------------------------------- C17 *)
 
@@ -864,6 +940,8 @@ Proof.
   - destruct Hs as (m & l & _ & _ & _ & H & _). discriminate.
   - destruct Hs as (m & l & _ & _ & _ & H & _). discriminate.
   - destruct Hs as (m & l & v1 & rest & m' & _ & _ & _ & _ & H & _). discriminate.
+  - destruct Hs as (m & _ & [[H _]|[H _]]); [discriminate|injection H as ->; auto].
+  - destruct Hs as [[H _]|[H _]]; [discriminate|injection H as ->; auto].
   - destruct Hs as (m & _ & [[[h H] _]|[H _]]); [discriminate|injection H as ->; auto].
   - destruct Hs as (m & md & _ & _ & [[[h H] _]|[H _]]); [discriminate|injection H as ->; auto].
   - destruct Hs as (ma & mb & _ & _ & (b0 & H & _) & _). discriminate.
@@ -873,6 +951,8 @@ Proof.
   - destruct Hs as (m & _ & H & _). discriminate.
   - destruct Hs as (ma & mb & _ & _ & _ & l & H & _). discriminate.
   - destruct Hs as (ma & mb & _ & _ & _ & bb & H & _). discriminate.
+  - destruct Hs as (m & l & _ & _ & _ & H & _). discriminate.
+  - destruct Hs as (m & _ & [[H _]|[H _]]); [discriminate|injection H as ->; auto].
 Qed.
 
 Lemma T_C17_no_assertion_fires c w t p w' :
